@@ -194,6 +194,10 @@ class Forward(Base):
             fam = "%s/lonpole%g/inside" % (["tan", "tpv", "sip"][i % 3], h["longpole"])
             out.append({"header": h, "pts": g.gen_points(ctx.rng, h, 5, special=False), "distort": True, "arr": i % 2 == 0, "family": fam})
             out.append({"header": h, "pts": [[h["crpix1"], h["crpix2"]]], "distort": True, "arr": False, "family": fam, "crpix": True})
+        # optional cards given explicitly at falsy values (0, 0.0, -0.0) where the default of a missing card is not zero
+        for i in range(ctx.n(5, 40) if round == 0 else 5):
+            h, fam, pts = g.gen_falsy(ctx.rng, i + ctx.rng.randrange(15))
+            out.append({"header": h, "pts": pts, "distort": True, "arr": i % 2 == 0, "family": fam})
         # reference point on the RA = 0 seam written as 0.0 or 360.0, axis-aligned CD matrix, pixels exactly on
         # the meridian through the reference pixel: through the array AND the scalar code
         for _ in range(ctx.n(8, 60) if round == 0 else 6):
@@ -252,6 +256,10 @@ class RoundTrip(Base):
             h["longpole"] = [0.0, 90.0, 270.0, 123.456, 179.0, -90.0][i % 6]
             out.append({"header": h, "pts": g.gen_points(ctx.rng, h, 10), "mode": ["find", "fit", "nodistort"][(i // 3) % 3],
                         "family": "%s/lonpole%g/inside" % (["tpv", "sip", "tan"][i % 3], h["longpole"])})
+        # optional cards explicitly at falsy values where the code's default is not zero
+        for i in range(ctx.n(5, 40) if round == 0 else 4):
+            h, fam, pts = g.gen_falsy(ctx.rng, i + ctx.rng.randrange(15))
+            out.append({"header": h, "pts": pts, "mode": ["find", "fit", "nodistort"][i % 3], "family": fam})
         # exact special values (CRVAL 0.0 / -0.0, CRPIX 0.0, pixel 0.0, neutral coefficient sets)
         for i in range(ctx.n(6, 40) if round == 0 else 4):
             h, fam, pts = g.gen_special(ctx.rng)
@@ -1007,13 +1015,15 @@ def cert_items_from(c, out):
 
 def cert_pool(fw, ctx, budget, ncrpix):
     r = ctx.rng
-    fixed, byfam, crp, lp = [], {}, [], []
+    fixed, byfam, crp, lp, fz = [], {}, [], [], {}
     for c, out in fw.results:
         for it in cert_items_from(c, out):
             if c["family"].startswith("corpus"):
                 fixed.append(it)
             elif "/lonpole" in c["family"]:
                 lp.append(it)
+            elif "/falsy" in c["family"] and it["kind"] == "fwd":
+                fz.setdefault(c["family"].split("/")[1].rsplit("-", 1)[0], []).append(it)
             elif it["kind"] == "crpix":
                 crp.append(it)
             else:
@@ -1026,6 +1036,9 @@ def cert_pool(fw, ctx, budget, ncrpix):
     r.shuffle(lp)
     lp.sort(key=lambda it: it["kind"] != "fwd")        # LONPOLE != 180: forward certificates first, then CRPIX -> CRVAL
     chosen = list(fixed) + crp[:ncrpix] + lp[:ctx.n(3, 30)]
+    for k in sorted(fz):                        # one forward certificate per falsy variant (quick), up to 6 (thorough)
+        r.shuffle(fz[k])
+        chosen += fz[k][:ctx.n(1, 6)]
     while len(chosen) < budget and any(byfam[k] for k in keys):
         for k in keys:
             if byfam[k] and len(chosen) < budget:
